@@ -319,3 +319,148 @@ func runC12R1(c *Ctx, r *Rep) {
 		}
 	}
 }
+
+// ---- C12.R9: what the unwinder pushes is what the table reserves and what END_FINALLY pops ----
+
+func init() {
+	register(&Rule{ID: "C12.R9", Prop: "C12", Floor: 7,
+		Doc: "unwinder/handler/table agreement: for each reason the block-unwinding loop pushes exactly the values END_FINALLY (+ the except-handler unwind) pops for that reason; the stack-effect reservation of SETUP_EXCEPT/SETUP_FINALLY covers the unwinder's largest push, SETUP_WITH's additionally covers its own push and WITH_CLEANUP's extra value",
+		Run: runC12R9})
+}
+
+func runC12R9(c *Ctx, r *Rep) {
+	m := getVMModel(c)
+	loop, _, names, why := findUnwindLoop(c)
+	if loop == nil {
+		r.undecided("vm|RunFrame|unwinding loop", token.NoPos, "%s", why)
+		return
+	}
+	se := newSymExec(c, "vm")
+	fin := c.ConstObj("py", "TryBlockSetupFinally")
+	if fin == nil {
+		r.undecided("py|TryBlockSetupFinally", token.NoPos, "constant not found")
+		return
+	}
+	pushes := map[string]int{}
+	maxPush := 0
+	for _, w := range []string{"whyException", "whyReturn", "whyBreak", "whyContinue"} {
+		wk := c.ConstObj("vm", w)
+		if wk == nil {
+			r.undecided("vm|"+w, token.NoPos, "constant not found")
+			return
+		}
+		n := -1
+		for _, o := range runUnwind(c, se, loop, names, constVal(fin), constVal(wk)) {
+			if len(o.st.und) > 0 {
+				r.undecided("vm|RunFrame|unwind pushes "+w, loop.Pos(), "%s", strings.Join(o.st.und, "; "))
+				return
+			}
+			k := len(o.st.pushed)
+			if n >= 0 && n != k {
+				r.bad("vm|RunFrame|unwind pushes "+w, loop.Pos(), "the number of values pushed for %s depends on the path (%d vs %d)", w, n, k)
+			}
+			n = k
+		}
+		pushes[w] = n
+		if n > maxPush {
+			maxPush = n
+		}
+	}
+	// END_FINALLY pops by reason
+	h := m.handlers["END_FINALLY"]
+	if h == nil {
+		r.bad("vm|jumpTable|END_FINALLY", token.NoPos, "no handler")
+		return
+	}
+	hfd := c.Decl(h)
+	r.analysed(FuncID(h))
+	paths, und, undPos := analyseHandler(se, hfd)
+	if len(und) > 0 {
+		r.undecided("vm|"+h.Name()+"|shape", undPos[0], "%s", strings.Join(und, "; "))
+		return
+	}
+	pops := map[string]map[string]bool{}
+	note := func(k, d string) {
+		if pops[k] == nil {
+			pops[k] = map[string]bool{}
+		}
+		pops[k][d] = true
+	}
+	for _, p := range paths {
+		if p.errPath {
+			continue
+		}
+		cs := strings.Join(p.conds, " && ")
+		ds := p.delta.String()
+		switch {
+		case strings.Contains(cs, "vm.why == whyReturn"):
+			note("whyReturn", ds)
+		case strings.Contains(cs, "vm.why == whyContinue"):
+			note("whyContinue", ds)
+		case strings.Contains(cs, "vm.why == whySilenced"):
+		case strings.Contains(cs, "vm.why != whySilenced") && strings.Contains(cs, "vm.why != whyReturn"):
+			note("whyBreak", ds)
+		case strings.Contains(cs, "ExceptionClassCheck") && !strings.Contains(cs, "!(py.ExceptionClassCheck"):
+			note("whyException", ds)
+		}
+	}
+	keys := func(mm map[string]bool) []string {
+		var o []string
+		for k := range mm {
+			o = append(o, k)
+		}
+		return uniq(o)
+	}
+	for _, w := range []string{"whyReturn", "whyContinue", "whyBreak"} {
+		want := fmt.Sprintf("%d", -pushes[w])
+		got := keys(pops[w])
+		r.check(len(got) == 1 && got[0] == want, "vm|unwinder vs END_FINALLY|"+w, hfd.Pos(),
+			fmt.Sprintf("unwinder pushes %d, END_FINALLY pops %d", pushes[w], pushes[w]),
+			fmt.Sprintf("for %s the unwinder pushes %d value(s) before entering the finally body but END_FINALLY's arm for that reason changes the stack by %v: the finally body runs at a depth the compiler did not predict and END_FINALLY misreads the stack", w, pushes[w], got))
+	}
+	// exception: END_FINALLY pops 3 (type, value, tb), the remaining 3 are popped when the except-handler block is unwound
+	got := keys(pops["whyException"])
+	r.check(pushes["whyException"] == 6 && len(got) == 1 && got[0] == "-3", "vm|unwinder vs END_FINALLY|whyException", hfd.Pos(),
+		"unwinder pushes 6, END_FINALLY pops 3 and the handler block's unwind restores 3",
+		fmt.Sprintf("for an exception the unwinder pushes %d values; END_FINALLY's re-raise arm changes the stack by %v (expected 6 / -3)", pushes["whyException"], got))
+	// reservations
+	seC := newSymExec(c, "compile")
+	tAdj, _, _ := walkAdjust(c, m)
+	tbl := func(op string) (int64, bool) {
+		tps, und := tableEffects(c, seC, constVal(m.ops[op]))
+		if len(und) > 0 || len(tps) != 1 || !tps[0].val.isConst() {
+			return 0, false
+		}
+		return tps[0].val.c, true
+	}
+	for _, op := range []string{"SETUP_EXCEPT", "SETUP_FINALLY"} {
+		v, ok := tbl(op)
+		if !ok {
+			r.undecided("compile|opcodeStackEffect|"+op, token.NoPos, "table value not constant")
+			continue
+		}
+		r.check(v >= int64(maxPush) || v+tAdj[op] >= int64(maxPush), "compile|opcodeStackEffect|"+op+" reservation", token.NoPos,
+			fmt.Sprintf("reserves %d (+%d at the handler) >= %d values the unwinder can push", v, tAdj[op], maxPush),
+			fmt.Sprintf("%s reserves %d stack slots (+%d at the handler) but the unwinder pushes up to %d values on entry to the handler: the declared stack size can be exceeded", op, v, tAdj[op], maxPush))
+	}
+	// SETUP_WITH: own push (relative to the block level) + unwinder's + WITH_CLEANUP's extra value on the exception arm
+	if v, ok := tbl("SETUP_WITH"); ok {
+		extra := 0
+		if wh := m.handlers["WITH_CLEANUP"]; wh != nil {
+			wp, wund, _ := analyseHandler(se, c.Decl(wh))
+			if len(wund) == 0 {
+				for _, p := range wp {
+					if !p.errPath && p.delta.isConst() && int(p.delta.c) > extra {
+						extra = int(p.delta.c)
+					}
+				}
+			}
+		}
+		need := int64(maxPush + extra)
+		r.check(v >= need, "compile|opcodeStackEffect|SETUP_WITH reservation", token.NoPos,
+			fmt.Sprintf("reserves %d >= %d (unwinder) + %d (WITH_CLEANUP's silenced marker)", v, maxPush, extra),
+			fmt.Sprintf("SETUP_WITH reserves %d stack slots but a with-body that raises needs %d (the unwinder's %d values plus WITH_CLEANUP's extra %d): Stacksize is too small for a with statement whose __exit__ silences an exception", v, need, maxPush, extra))
+	} else {
+		r.undecided("compile|opcodeStackEffect|SETUP_WITH", token.NoPos, "table value not constant")
+	}
+}
